@@ -120,6 +120,19 @@ def run(ck):
   keys = list(uniq)
   for k, r in zip(keys, core.pmap(PC.parse_job, keys)):
     uniq[k] = r
+  # what the spans say must be the same under both parsers (each span being self-consistent is not enough)
+  if len(modes) == 2:
+    seen_t = set()
+    for kind, b, t, what in texts:
+      for x in (b, t):
+        if x in seen_t:
+          continue
+        seen_t.add(x)
+        rp_, rc_ = uniq[(x, 'PY')], uniq[(x, 'CPP')]
+        if 'ok' in rp_ and 'ok' in rc_ and rp_['ok'] == rc_['ok'] and rp_.get('texts') != rc_.get('texts'):
+          ck.violation('c15:span-text-differs-between-parsers',
+                       'the two parsers attach different source text to a node: %s' % PC.first_diff(rp_['texts'], rc_['texts']),
+                       {'text': x})
   for kind, b, t, what in texts:
     for m in modes:
       rb, rt = uniq[(b, m)], uniq[(t, m)]
